@@ -436,6 +436,16 @@ pub fn oracle(case: &[u8], obs: &mut Obs) -> Result<(), Fail> {
     leak_checked(case, obs, false, false)
 }
 
+/// fuzzing entry: the history without thread hand-off and without the 3 MB document (ASan and
+/// LSan are the memory oracle there)
+pub fn oracle_fuzz(case: &[u8], obs: &mut Obs) -> Result<(), Fail> {
+    let r = run_history(case, false, false)?;
+    if r.0 {
+        obs.nt();
+    }
+    Ok(())
+}
+
 pub fn oracle_threads(case: &[u8], obs: &mut Obs) -> Result<(), Fail> {
     // histories with hand-off to other threads: the oracle is the dumps (and the quarantine);
     // leak accounting for these runs through the global counters in `oracle_stress`
@@ -678,6 +688,7 @@ pub fn subs() -> Vec<Sub<'static>> {
         Sub { name: "thread-handoff", oracle: &oracle_threads, minimise_bytes: false },
         Sub { name: "drop-orders", oracle: &oracle_perm, minimise_bytes: false },
         Sub { name: "thread-stress", oracle: &oracle_stress, minimise_bytes: false },
+        Sub { name: "fuzz-histories", oracle: &oracle_fuzz, minimise_bytes: false },
     ]
 }
 
